@@ -7,7 +7,7 @@ from props.c03 import gen_ctor
 
 PID = "C14"
 LEVEL = "proof"
-LEAN_TARGETS = ["SyneTune.Props.C14", "SyneTune.Props.C14Comp"]
+LEAN_TARGETS = ["SyneTune.Props.C14", "SyneTune.Props.C14Comp", "SyneTune.Props.C14Dy"]
 DRIVER = "SyneTune/Drivers/Hb.lean"
 THEOREMS = [
     "SyneTune.C14.apply_preserves_wf",
@@ -39,6 +39,27 @@ THEOREMS = [
     "SyneTune.C14Comp.pending_only_running_counterexample",
     "SyneTune.C14Comp.pending_only_running_counterexample_promoted",
     "SyneTune.C14Comp.skipped_level_counterexample",
+    # DyHPO (Props/C14Dy.lean): the DyHPO rung system on top of the Hyperband model, KInv / CInv lifted to every history
+    # of DOp = SOp + suggestDy; the old histories are embedded unchanged (runCD_old)
+    "SyneTune.C14Dy.runCD_old",
+    "SyneTune.C14Dy.step_KInv_dy",
+    "SyneTune.C14Dy.kinv_all_histories_dy",
+    "SyneTune.C14Dy.resume_only_not_running_dy",
+    "SyneTune.C14Dy.paused_list_is_unpromoted",
+    "SyneTune.C14Dy.pick_is_paused",
+    "SyneTune.C14Dy.resume_only_eligible_dy",
+    "SyneTune.C14Dy.resumed_trial_leaves_paused_list",
+    "SyneTune.C14Dy.history_invariant_dy",
+    "SyneTune.C14Dy.promoted_once_dy",
+    "SyneTune.C14Dy.calls_accepted_dy",
+    "SyneTune.C14Dy.cinv_step_dy",
+    "SyneTune.C14Dy.cinv_all_histories_dy",
+    "SyneTune.C14Dy.pending_only_running_dy",
+    "SyneTune.C14Dy.pending_rungs_milestone_nodup_dy",
+    "SyneTune.C14Dy.no_pending_unless_running_dy",
+    "SyneTune.C14Dy.observed_once_dy",
+    "SyneTune.C14Dy.observed_only_reported_levels_dy",
+    "SyneTune.C14Dy.no_pending_after_end_dy",
 ]
 TRUSTED = [
     "hand-written models lean/SyneTune/Model/{HB,SearcherState}.lean tied to /repo by the hb stream run with the real "
@@ -46,12 +67,28 @@ TRUSTED = [
     "Python harness harness/streams/hb.py",
     "num_init_random is set huge so that no surrogate fit runs: the data bookkeeping is identical, the numerics are not exercised "
     "(hb stream only; the monitor-only streams below run with num_init_random 2-3, the surrogate model IS fitted there)",
-    "monitor-only streams `dyhpo` (HyperbandScheduler(type='dyhpo', searcher='dyhpo'), inner MyGPMultiFidelitySearcher) and `syncgp` "
-    "(SynchronousGeometricHyperbandScheduler / GeometricDifferentialEvolutionHyperbandScheduler with searcher='bayesopt'): decided on "
-    "the real code by the monitor `mf_monitor` (state_transformer.state read after every event); there is NO Lean model of DyHPO / of "
-    "the synchronous schedulers' searcher glue, so for these the evidence is testing of the real code, not proof. The milestone / "
-    "resume level of a run is read from the scheduler (`_running`, `_trial_to_pending_slot`, `level_to_prev_level`): the data-policy "
-    "rule is stated relative to the scheduler's own notion of the run",
+    "stream `dyhpo` (HyperbandScheduler(type='dyhpo', searcher='dyhpo'), inner MyGPMultiFidelitySearcher, surrogate model fitted): "
+    "DyHPO's SCHEDULING is modelled (lean/SyneTune/Model/DyHPO.lean: _paused_trials_and_milestones, _previous_rung_level, "
+    "on_task_schedule with _mark_as_promoted, on top of Model/HB.lean; theorems Props/C14Dy.lean) and tied to the real code by model "
+    "lines in the hb protocol (op suggest_dy of Drivers/Hb.lean): per _suggest the harness records, by per-instance wrappers around "
+    "the real objects (rung_system.on_task_schedule, rung_system._random_state, searcher.score_paused_trials_and_new_configs and the "
+    "five data methods of the searcher; nothing in /repo is touched), the coin `rand() <= probability_sh`, the level the SH rule "
+    "promoted from, the searcher's pick, the paused list handed to the searcher and every searcher call in order. FREE (adopted from "
+    "the implementation): coin, SH hint, pick. FORCED (compared): the paused list (ids, positions, next levels, order), membership "
+    "of the pick in it (a pick outside it is a model error) and its position, the decision start/resume with trial, resume level and "
+    "milestone, the searcher calls pending/update/remove_case/cleanup/failed in order, the scheduler state (rungs with promoted flags, "
+    "_running, _task_info, _active_trials) and the GP searcher's data state (pending, observed, failed) after every event",
+    "the searcher's SCORING (GP surrogate fit, expected improvement, argmin in score_paused_trials_and_new_configs) is an ORACLE: not "
+    "modelled, its answer is an input whose membership in the paused list is checked; probability_sh / the random generator are "
+    "not modelled (the coin is an input)",
+    "python wrappers of harness/props/c14.py (_DyRecorder, _DyRandProxy): delegate to the wrapped real methods unchanged; the random "
+    "stream is the real generator's",
+    "monitor-only stream `syncgp` (SynchronousGeometricHyperbandScheduler / GeometricDifferentialEvolutionHyperbandScheduler with "
+    "searcher='bayesopt'): decided on the real code by the monitor `mf_monitor` (state_transformer.state read after every event); "
+    "there are NO Lean model lines for the synchronous schedulers' searcher glue here, so for it the evidence is testing of the real "
+    "code, not proof. `mf_monitor` also keeps running on the dyhpo stream, next to the model lines. The milestone / resume level of a "
+    "run is read from the scheduler (`_running`, `_trial_to_pending_slot`, `level_to_prev_level`): the data-policy rule is stated "
+    "relative to the scheduler's own notion of the run",
 ]
 ASSUMPTIONS = [
     "workers report consecutive resource levels within a run (a resumed run starts at resume_from+1 with checkpointing, at 1 without)",
@@ -70,9 +107,13 @@ RULE = ("cases: real HyperbandScheduler(type in stopping, promotion) with search
         "policy, register_pending_myopic on/off, 1-4 brackets, checkpointing on/off, failures and completions; distinct by "
         "sha256 of the spec; non-trivial iff at least one pending entry was dropped by an observation and at least one trial "
         "paused/stopped/failed while others had pending entries. "
-        "Monitor-only cases (no Lean model lines): kind dyhpo = real HyperbandScheduler(type=dyhpo, searcher=dyhpo), linear or geometric "
+        "Kind dyhpo (model lines through Drivers/Hb.lean op suggest_dy AND the monitor mf_monitor) = real HyperbandScheduler(type=dyhpo, "
+        "searcher=dyhpo), linear or geometric "
         "rung levels, every searcher_data policy, register_pending_myopic on/off, probability_sh 0-0.5, checkpointing on/off (re-reported "
-        "levels carry fresh values), failures p 0-0.2, scripts ending early; kind syncgp = real SynchronousGeometricHyperbandScheduler / "
+        "levels carry fresh values), failures p 0-0.2, scripts ending early; every suggest / result / remove / error / complete is one "
+        "model line, compared by streams/hb.compare (forced: paused list, pick position, decision, resume level, milestone, searcher "
+        "calls in order, scheduler and searcher-data state; free: coin, SH hint, pick). "
+        "Monitor-only cases (no Lean model lines): kind syncgp = real SynchronousGeometricHyperbandScheduler / "
         "GeometricDifferentialEvolutionHyperbandScheduler with searcher=bayesopt, searcher_data rungs/all, with/without "
         "max_resource_attr, checkpointing on/off, failures p 0-0.2; both modes, 1-4 workers, num_init_random 2-3 so that the surrogate "
         "model is fitted; these are non-trivial iff the model-based phase was reached (>=1 surrogate fit) and at least one pause/stop "
@@ -215,7 +256,7 @@ def data_monitor(spec, lines, events):
 
 
 def run_impl(spec):
-    if spec.get("kind") in ("dyhpo", "syncgp"):
+    if spec.get("kind") in ("dyhpo", "syncgp", "hbgp"):
         return run_mf(spec)
     t = hb.run_scenario(spec)
     sched = t.pop("sched")
@@ -298,7 +339,7 @@ def extra(ctx):
 
 
 # ---------------------------------------------------------------------------------
-# Monitor-only streams `dyhpo` and `syncgp` (no Lean model lines: `"lines": []`).
+# Streams `dyhpo` (monitor + Lean model lines, see `_DyRecorder`) and `syncgp` (monitor only: `"lines": []`).
 #
 # The real scheduler is driven through its public API (suggest / on_trial_add / on_trial_result /
 # on_trial_remove / on_trial_complete / on_trial_error) by a scripted worker pool; after EVERY event the data
@@ -411,6 +452,28 @@ def gen_mf_cases(rng, tier):
             "checkpointing": rng.random() < 0.5,
             "p_fail": rng.choice([0, 0.05, 0.1, 0.2]),
         }
+    # diverged training runs: a report whose metric is NaN / inf is an evaluation that has arrived (nothing is stored for
+    # it, and it must not stay pending).  Appended last; kind hbgp = HyperbandScheduler(type=promotion, searcher=bayesopt),
+    # monitor-only like syncgp (the Lean model's metric values are rationals)
+    for j in range(6 if quick else 60):
+        common = {"search_options": {"num_init_random": rng.choice([2, 3]), "opt_maxiter": 5, "opt_nstarts": 1,
+                                     "num_init_candidates": 3, "debug_log": False},
+                  "seed": rng.randrange(10 ** 9), "n_workers": rng.randint(1, 4),
+                  "max_events": rng.choice([40, 70]) if quick else rng.choice([60, 100, 140]),
+                  "checkpointing": rng.random() < 0.5, "p_fail": rng.choice([0, 0, 0.05]),
+                  "p_nan": rng.choice([0.1, 0.2, 0.35]), "nan_kinds": rng.choice([["nan"], ["nan", "inf", "-inf"]])}
+        if j % 2 == 0:
+            grace, rf, maxr = rng.choice([(1, 2, 4), (1, 3, 9), (1, 2, 8), (2, 2, 8)])
+            c = {"cls": "hyperband", "mode": rng.choice(["min", "max"]), "grace_period": grace, "reduction_factor": rf,
+                 "max_resource_level": maxr, "searcher_data": rng.choice(["rungs", "all"]),
+                 "max_resource_attr": rng.random() < 0.5, "random_seed": rng.randrange(1000), "brackets": rng.choice([None, 1, 2])}
+            yield dict(common, kind="syncgp", ctor=c)
+        else:
+            c = {"mode": rng.choice(["min", "max"]), "grace_period": 1, "reduction_factor": rng.choice([2, 3]),
+                 "max_t": rng.choice([4, 8, 9]), "searcher_data": rng.choice(["rungs", "all"]),
+                 "register_pending_myopic": rng.random() < 0.3, "max_resource_attr": rng.random() < 0.5,
+                 "random_seed": rng.randrange(1000)}
+            yield dict(common, kind="hbgp", ctor=c, p_early=0)
 
 
 def _mf_make(spec):
@@ -423,10 +486,13 @@ def _mf_make(spec):
     args = dict(metric=MF_METRIC, mode=c["mode"], resource_attr=MF_RES, searcher_data=c["searcher_data"],
                 random_seed=c["random_seed"], search_options=dict(spec["search_options"]),
                 grace_period=c["grace_period"])
-    if spec["kind"] == "dyhpo":
+    if spec["kind"] in ("dyhpo", "hbgp"):
         from syne_tune.optimizer.schedulers.hyperband import HyperbandScheduler
-        args.update(searcher="dyhpo", type="dyhpo", register_pending_myopic=c["register_pending_myopic"],
-                    rung_system_kwargs={"probability_sh": c["probability_sh"]})
+        if spec["kind"] == "dyhpo":
+            args.update(searcher="dyhpo", type="dyhpo", register_pending_myopic=c["register_pending_myopic"],
+                        rung_system_kwargs={"probability_sh": c["probability_sh"]})
+        else:
+            args.update(searcher="bayesopt", type="promotion", register_pending_myopic=c["register_pending_myopic"], brackets=1)
         if "rung_increment" in c:
             args["rung_increment"] = c["rung_increment"]
         else:
@@ -438,7 +504,8 @@ def _mf_make(spec):
             args["max_t"] = c["max_t"]
         sch = HyperbandScheduler(cs, **args)
         sch._initialize_searcher()
-        gp = sch.searcher._searcher_int  # DynamicHPOSearcher delegates all data calls to this GP searcher
+        # DynamicHPOSearcher delegates all data calls to an inner GP searcher
+        gp = sch.searcher._searcher_int if spec["kind"] == "dyhpo" else sch.searcher
         header = {"rung_levels": [int(x) for x in sch.rung_levels], "max_t": int(sch.max_t)}
     else:
         from syne_tune.optimizer.schedulers.synchronous.hyperband_impl import (
@@ -478,7 +545,7 @@ def _mf_state(gp):
 
 def _mf_run_info(spec, sch, tid):
     """milestone m and resume level f of the run of trial `tid` that was just started / resumed (the scheduler's own)"""
-    if spec["kind"] == "dyhpo":
+    if spec["kind"] in ("dyhpo", "hbgp"):
         info = None
         for rs in sch.terminator._rung_systems:
             info = rs._running.get(str(tid), info)
@@ -498,11 +565,168 @@ def mf_metric(seed, tid, r, run):
     return _random.Random(seed * 7919 + tid * 104729 + r * 131 + run * 17).randrange(0, 1024) / 1024.0
 
 
+
+class _DyRandProxy:
+    """stands in for `DyHPORungSystem._random_state`: delegates to the real generator (the stream of random numbers is
+    unchanged), records what `rand()` returned - the coin of `on_task_schedule`"""
+
+    def __init__(self, inner):
+        self._inner = inner
+        self.coins = []
+
+    def rand(self, *a, **kw):
+        r = self._inner.rand(*a, **kw)
+        if not a and not kw:
+            self.coins.append(float(r))
+        return r
+
+    def __getattr__(self, name):
+        return getattr(self._inner, name)
+
+
+class _DyRecorder:
+    """Per-instance wrappers around the REAL objects of one dyhpo case (nothing in /repo is changed): the rung system's
+    `on_task_schedule` and `_random_state`, the searcher's `score_paused_trials_and_new_configs`, and the five data methods
+    of the searcher the scheduler calls (recorded in the format of `streams/hb.StubSearcher`, then passed on)."""
+
+    def __init__(self, sch):
+        self.calls = []
+        self.sched = []     # one record per `rung_system.on_task_schedule` call
+        self.scores = []    # one record per `searcher.score_paused_trials_and_new_configs` call
+        term = sch.terminator
+        self.brackets = hb.RecordingRandomState(term.random_state)  # what `_sample_bracket` drew
+        term.random_state = self.brackets
+        self.rsys = term._rung_systems
+        self.coins = []
+        for k, rs in enumerate(self.rsys):
+            proxy = _DyRandProxy(rs._random_state)
+            rs._random_state = proxy
+            self.coins.append(proxy)
+            rs.on_task_schedule = self._wrap_schedule(k, rs, rs.on_task_schedule, proxy)
+        srch = sch.searcher
+        srch.score_paused_trials_and_new_configs = self._wrap_score(srch.score_paused_trials_and_new_configs)
+        srch.on_trial_result = self._wrap(srch.on_trial_result, self._rec_update)
+        srch.register_pending = self._wrap(srch.register_pending, self._rec_pending)
+        srch.remove_case = self._wrap(srch.remove_case, self._rec_remove_case)
+        srch.evaluation_failed = self._wrap(srch.evaluation_failed, lambda trial_id: ["failed", int(trial_id)])
+        srch.cleanup_pending = self._wrap(srch.cleanup_pending, lambda trial_id: ["cleanup", int(trial_id)])
+
+    @staticmethod
+    def _rec_update(trial_id, config, result, update):
+        return ["update", int(trial_id), int(result[MF_RES]), frac_str(result[MF_METRIC]), bool(update)]
+
+    @staticmethod
+    def _rec_pending(trial_id, config=None, milestone=None):
+        return ["pending", int(trial_id), int(milestone)]
+
+    @staticmethod
+    def _rec_remove_case(trial_id, **kwargs):
+        return ["remove_case", int(trial_id), int(kwargs[MF_RES]), frac_str(kwargs[MF_METRIC])]
+
+    def _wrap(self, orig, rec):
+        def f(*a, **kw):
+            self.calls.append(rec(*a, **kw))
+            return orig(*a, **kw)
+        return f
+
+    def _wrap_score(self, orig):
+        def f(*a, **kw):
+            paused = kw["paused_trials"] if "paused_trials" in kw else a[0]
+            entry = {"paused": [[int(t), int(pos), int(r)] for t, pos, r in paused]}
+            self.scores.append(entry)
+            res = orig(*a, **kw)
+            tid = res.get("trial_id")
+            entry["pick"] = None if tid is None else int(tid)
+            entry["pos"] = None if tid is None else int(res["pos"])
+            return res
+        return f
+
+    def _wrap_schedule(self, k, rs, orig, proxy):
+        def f(new_trial_id):
+            n_coin, n_score = len(proxy.coins), len(self.scores)
+            entry = {"sys": k}
+            self.sched.append(entry)
+            ret = orig(new_trial_id)
+            coins = proxy.coins[n_coin:]
+            entry["sh"] = bool(coins) and coins[0] <= rs._probability_sh
+            entry["score"] = self.scores[n_score] if len(self.scores) > n_score else None
+            tid = ret.get("trial_id")
+            entry["promoted"] = None if tid is None else [int(tid), int(ret["resume_from"]), int(ret["milestone"])]
+            return ret
+        return f
+
+    def take_calls(self):
+        c, self.calls = self.calls, []
+        return c
+
+    def take_sched(self):
+        c, self.sched = self.sched, []
+        return c
+
+
+def _dy_snapshot(sch, gp):
+    """`streams/hb.snapshot` plus the data state of the inner GP searcher in the same format"""
+    out = hb.snapshot(sch)
+    st = gp.state_transformer.state
+    out["pending"] = [[int(p.trial_id), int(p.resource)] for p in st.pending_evaluations]
+    out["observed"] = [[int(e.trial_id), [[int(k), frac_str(v)] for k, v in e.metrics.get("target", {}).items()]]
+                       for e in st.trials_evaluations]
+    out["failed"] = [int(x) for x in st.failed_trials]
+    return out
+
+
+def _dy_header(spec, sch):
+    """constructor line of the hb protocol for a dyhpo case (the Hb driver maps type dyhpo to the promotion rung system
+    with the DyHPO `on_task_schedule`, lean/SyneTune/Model/DyHPO.lean)"""
+    c = spec["ctor"]
+    h = {"stream": "hb", "type": "dyhpo", "mode": c["mode"], "max_t": int(c["max_t"]), "grace_period": int(c["grace_period"]),
+         "brackets": 1, "searcher_data": c["searcher_data"], "register_pending_myopic": bool(c["register_pending_myopic"]),
+         "max_resource_attr": bool(c["max_resource_attr"])}
+    if "rung_increment" in c:
+        h["rung_increment"] = int(c["rung_increment"])
+    else:
+        h["reduction_factor"] = str(c["reduction_factor"])
+    impl = {"rung_levels": [int(x) for x in sch.rung_levels], "num_brackets": int(sch.terminator.num_brackets),
+            "_prom_quants": [float(q) for (_, _, q) in sch.terminator.information_for_rungs()]}
+    return h, impl
+
+
+def _dy_suggest_line(rec, next_id):
+    """model input of one `_suggest` of the real dyhpo scheduler and the FORCED facts observed inside it: which list of
+    paused trials the searcher was handed, and at which position of its rung the trial it picked sits.
+    FREE (adopted from the implementation): the coin `sh`, the hint of the SH scan (level it promoted from), the pick."""
+    sched = rec.take_sched()
+    if len(sched) != 1:
+        raise RuntimeError(f"dyhpo harness: expected one on_task_schedule call per suggest, saw {len(sched)}")
+    e = sched[0]
+    drawn = rec.brackets.drawn[-1] if rec.brackets.drawn else 0
+    inp = {"op": "suggest_dy", "trial_id": int(next_id), "bracket": int(drawn), "sh": bool(e["sh"])}
+    forced = {}
+    sc = e["score"]
+    if sc is None:
+        # the searcher was not asked: the SH rule promoted
+        if e["promoted"] is not None:
+            inp["hint"] = e["promoted"][1]
+    else:
+        forced["paused"] = sc["paused"]
+        if sc["pick"] is not None:
+            inp["pick"] = sc["pick"]
+            forced["pick_pos"] = sc["pos"]
+    return inp, forced, e
+
+
 def run_mf(spec):
     from syne_tune.backend.trial_status import Trial
     kind = spec["kind"]
     rng = _random.Random(spec["seed"])
     sch, gp, header = _mf_make(spec)
+    # model lines (kind dyhpo only): the hb line protocol, run through Drivers/Hb.lean by framework.run_cases and
+    # compared by streams/hb.compare; `rec` wraps the real objects of this case per instance
+    lines = []
+    rec = None
+    if kind == "dyhpo":
+        rec = _DyRecorder(sch)
+        lines.append(_dy_header(spec, sch))
     fits = [0]
     stf = gp.state_transformer
     orig_fit = stf.fit
@@ -556,6 +780,10 @@ def run_mf(spec):
             ok, sg = guarded("suggest", sch.suggest, next_id)
             if not ok:
                 break
+            dy = None
+            if rec is not None:
+                dy = _dy_suggest_line(rec, next_id)
+                dy_calls = rec.take_calls()
             if sg is None:
                 events.append({"ev": "no-suggestion", "state": _mf_state(gp)})
                 count("no-suggestion")
@@ -589,6 +817,25 @@ def run_mf(spec):
                     count("resume-of-failed-trial")
                     failed.discard(tid)
             ev.update(_mf_run_info(spec, sch, tid))
+            if dy is not None:
+                inp, forced, sched_rec = dy
+                if ev["ev"] == "start":
+                    sgj = {"kind": "start", "trial": tid, "bracket": int(sch._active_trials[str(tid)].bracket), "milestone": ev["m"]}
+                    count("model:suggest_dy:started")
+                else:
+                    sgj = {"kind": "resume", "trial": tid, "from": ev["f"], "milestone": ev["m"]}
+                    count("model:suggest_dy:resumed-by-" + ("pick" if "pick" in inp else "sh-rule"))
+                out = {"suggestion": sgj, "calls": dy_calls}
+                out.update(forced)
+                out.update(_dy_snapshot(sch, gp))
+                lines.append((inp, out))
+                count("model:suggest_dy")
+                if inp["sh"]:
+                    count("model:suggest_dy:sh-tried")
+                if "paused" in forced:
+                    count("model:suggest_dy:searcher-asked")
+                    if forced["paused"]:
+                        count("model:suggest_dy:searcher-asked-with-paused-trials")
             if kind == "syncgp" and spec["ctor"]["cls"] == "hyperband":
                 # synchronous Hyperband: the resume level of a run is known from the history alone - 0 for a new trial,
                 # the rung level the trial was paused at for a resumed one (not the scheduler's level_to_prev_level)
@@ -606,6 +853,9 @@ def run_mf(spec):
             w = workers[tid]
             r = w["next"]
             v = mf_metric(spec["seed"], tid, r, w["run"])
+            if spec.get("p_nan") and rng.random() < spec["p_nan"]:
+                v = float(rng.choice(spec.get("nan_kinds") or ["nan"]))
+                count("non-finite-report")
             res = {MF_METRIC: v, MF_RES: r}
             ok, d = guarded("on_trial_result", sch.on_trial_result, trials[tid], dict(res))
             if not ok:
@@ -613,8 +863,13 @@ def run_mf(spec):
             w["next"] += 1
             w["reports"] += 1
             last_result[tid] = res
-            events.append({"ev": "result", "trial": tid, "resource": r, "metric": v, "decision": d, "state": _mf_state(gp)})
+            events.append({"ev": "result", "trial": tid, "resource": r, "metric": v if v == v and abs(v) != float("inf") else repr(v),
+                           "decision": d, "state": _mf_state(gp)})
             count("result")
+            if rec is not None:
+                out = {"decision": d, "calls": rec.take_calls()}
+                out.update(_dy_snapshot(sch, gp))
+                lines.append(({"op": "result", "trial": tid, "resource": r, "metric": frac_str(v), "hint": d == "CONTINUE"}, out))
             if d != "CONTINUE":
                 count("pause" if d == "PAUSE" else "stop")
                 if d == "PAUSE":
@@ -624,6 +879,12 @@ def run_mf(spec):
                 if not ok:
                     break
                 events.append({"ev": "remove", "trial": tid, "state": _mf_state(gp)})
+                if rec is not None:
+                    out = _dy_snapshot(sch, gp)
+                    c_ = rec.take_calls()
+                    if c_:  # on_trial_remove makes no searcher call in the model: any call here is a disagreement
+                        out["calls"] = c_
+                    lines.append(({"op": "remove", "trial": tid}, out))
         elif a == "fail":
             tid = rng.choice(sorted(workers))
             w = workers.pop(tid)
@@ -635,6 +896,10 @@ def run_mf(spec):
             if not ok:
                 break
             events.append({"ev": "error", "trial": tid, "state": _mf_state(gp)})
+            if rec is not None:
+                out = {"calls": rec.take_calls()}
+                out.update(_dy_snapshot(sch, gp))
+                lines.append(({"op": "error", "trial": tid}, out))
         elif a == "end":
             # the training script ends by itself: the Tuner calls on_trial_complete with the last result it has seen
             tid = rng.choice(sorted(t for t in workers if t in last_result))
@@ -645,6 +910,10 @@ def run_mf(spec):
                 break
             events.append({"ev": "complete", "trial": tid, "resource": res[MF_RES], "metric": res[MF_METRIC], "state": _mf_state(gp)})
             count("complete")
+            if rec is not None:
+                out = {"calls": rec.take_calls()}
+                out.update(_dy_snapshot(sch, gp))
+                lines.append(({"op": "complete", "trial": tid, "resource": int(res[MF_RES]), "metric": frac_str(res[MF_METRIC])}, out))
     mon = mf_monitor(spec, header, events)
     count("cases")
     count("events", len(events))
@@ -664,7 +933,10 @@ def run_mf(spec):
     fails = sum(v for k, v in hist.items() if k.startswith(f"{kind}:fail:"))
     nt = fits[0] > 0 and ends > 0 and (fails > 0 or hist.get(f"{kind}:resume", 0) > 0)
     count("nontrivial", 1 if nt else 0)
-    return {"lines": [], "monitor": mon, "meta": {"hist": hist, "nontrivial": bool(nt)}}
+    if rec is not None:
+        count("model:cases-with-model-lines", 1 if len(lines) > 1 else 0)
+        count("model:lines", len(lines))
+    return {"lines": lines, "monitor": mon, "meta": {"hist": hist, "nontrivial": bool(nt)}}
 
 
 def _mf_history(events, upto):
@@ -686,9 +958,11 @@ def _mf_history(events, upto):
 def mf_monitor(spec, header, events):
     """direct reading of C14 on the searcher's data state after every event (kinds dyhpo / syncgp)"""
     kind = spec["kind"]
+    hbrules = kind in ("dyhpo", "hbgp")   # data-policy rules of HyperbandScheduler._update_searcher
     c = spec["ctor"]
     mode, policy = c["mode"], c["searcher_data"]
     dehb = kind == "syncgp" and c["cls"] == "dehb"
+    nonfinite = set()  # (trial, level) reported with a NaN / infinite metric while running: arrived, nothing to store
     max_t = header["max_t"]
     rung_levels = set(header.get("rung_levels", []))
     out, seen = [], set()
@@ -720,13 +994,20 @@ def mf_monitor(spec, header, events):
         if k in ("start", "resume"):
             running[t] = {"f": ev["f"], "m": ev["m"], "last": 0}
         elif k == "result":
-            r, v = ev["resource"], Fraction(ev["metric"])
+            r = ev["resource"]
+            finite = not isinstance(ev["metric"], str)
+            v = Fraction(ev["metric"]) if finite else None
             run = running.get(t)
-            if run is not None:
+            if run is not None and not finite:
+                run["last"] = max(run["last"], r)
+                nonfinite.add((t, r))
+                if ev["decision"] != "CONTINUE":
+                    running.pop(t, None)
+            elif run is not None:
                 run["last"] = max(run["last"], r)
                 reported.setdefault((t, str(r)), []).append(v if mode == "min" else 1 - v)
                 f, m = run["f"], run["m"]
-                if kind == "dyhpo":
+                if hbrules:
                     if r > f:  # accepted (r <= f: re-reported level of a resumed run, `ignore_data`)
                         exp = expected.setdefault(t, set())
                         if policy == "all":
@@ -790,7 +1071,10 @@ def mf_monitor(spec, header, events):
         # (c) pending evaluations: running trial, above its last report, not above the milestone, not observed
         for tt, lv in st["pending"]:
             run = running.get(tt)
-            if run is None:
+            if (tt, lv) in nonfinite and (run is None or lv <= max(run["f"], run["last"])):
+                find("nonfinite-report-keeps-pending", f"pending evaluation (trial {tt}, level {lv}) is still there although trial {tt} "
+                     f"reported level {lv} (with a NaN / infinite metric value)" + ("" if run is not None else " and is not running any more"), i)
+            elif run is None:
                 find("pending-of-trial-not-running", f"pending evaluation (trial {tt}, level {lv}) although trial {tt} is not "
                      f"running (after {k} of trial {ev.get('trial')})", i)
             else:
